@@ -299,22 +299,4 @@ theorem sem_ifThen (c t : Expr) (ihc : SemOk S c) (iht : SemOk S t) : SemOk S (.
       refine ⟨σ', ?_, z2, z3, z4⟩
       rw [exec_seq x1]; simp [exec, hcv, htr, z1]
 
-/-- **Semantic correctness of the compiler model**, for every expression of the core. -/
-theorem compile_sem (e : Expr) : SemOk S e := by
-  induction e with
-  | null => exact sem_null
-  | bool b => exact sem_bool b
-  | int n => exact sem_int n
-  | var x => exact sem_var x
-  | un op e ih => exact sem_un op e ih
-  | bin op a b iha ihb => exact sem_bin op a b iha ihb
-  | cmp op a b iha ihb => exact sem_cmp op a b iha ihb
-  | and a b iha ihb => exact sem_and a b iha ihb
-  | or a b iha ihb => exact sem_or a b iha ihb
-  | assign x e ih => exact sem_assign x e ih
-  | compound op x e ih => exact sem_compound op x e ih
-  | seq a b iha ihb => exact sem_seq a b iha ihb
-  | ite c t e ihc iht ihe => exact sem_ite c t e ihc iht ihe
-  | ifThen c t ihc iht => exact sem_ifThen c t ihc iht
-
 end KotoVerif.Compile
